@@ -66,3 +66,5 @@ Definition gen_run_case (c : rcase) : list (list Z) :=
 Definition check_gen (c : rcase * list (list Z)) : bool := zll_eqb (gen_run_case (fst c)) (snd c).
 (* the regenerated model against the hand model (the observations are ignored) *)
 Definition agree_gen (c : rcase * list (list Z)) : bool := zll_eqb (gen_run_case (fst c)) (run_case (fst c)).
+(* both at once (one pass over the cases in the search) *)
+Definition both_gen (c : rcase * list (list Z)) : bool := check_gen c && agree_gen c.
